@@ -2065,6 +2065,24 @@ fn gen_c07(o: &mut Out, r: &mut Rng, d: &GDict, tier: &str) {
     }
 }
 
+/// very many accepted frames through one process before the hostile announcements come (thorough: more than 4 GiB, so
+/// that anything the process counts in 32 bits has wrapped): they are refused as at the start
+fn gen_c07_many(o: &mut Out, d: &GDict, tier: &str) {
+    let oc = d.by_type(T_OCT)[0].clone();
+    let frame_of = |total: usize| -> Vec<u8> {
+        // a frame of exactly `total` octets: header + one OctetString AVP
+        let hl = if oc.vendor.is_some() { 12 } else { 8 };
+        let data = total - 20 - hl;
+        let m = GM { version: 1, flags: 0x80, cmd: 272, app: 4, hbh: 5, e2e: 6, avps: vec![GA { code: oc.code, vendor: oc.vendor, flags: 0, v: GV::Oct(vec![0x5a; data]) }] };
+        m.encode(&mut None)
+    };
+    let plans: Vec<(u64, usize)> = if tier == "thorough" { vec![(4200, 1 << 20), (70000, 65536)] } else { vec![(64, 1 << 20), (3000, 4096)] };
+    for (count, total) in plans {
+        o.case(&format!("many frames count={} size={}", count, total));
+        o.line(&format!("sdecmany {} {}", count, hex(&frame_of(total))));
+    }
+}
+
 /// C08 (cuts = false) and C09 (cuts = true): the per-connection loop of the server on scripted streams
 fn gen_c08(o: &mut Out, r: &mut Rng, d: &GDict, tier: &str, cuts: bool) {
     let thorough = tier == "thorough";
@@ -2080,6 +2098,23 @@ fn gen_c08(o: &mut Out, r: &mut Rng, d: &GDict, tier: &str, cuts: bool) {
         for (tls, n, kib) in [(0, 6, 700), (1, 4, 300), (0, 3, 64)] {
             o.case(&format!("listener pipeline tls={} n={} kib={}", tls, n, kib));
             o.line(&format!("lsnpipe tls={} n={} kib={}", tls, n, kib));
+        }
+        // one connection that carries very many requests (thorough: more than 4 GiB of answers, so that anything the
+        // connection counts in 32 bits has wrapped): every one of them is handled and answered
+        {
+            let oc0 = d.by_type(T_OCT)[0].code;
+            let plans: Vec<(u64, usize)> = if thorough { vec![(4200, (1 << 20) - 28), (300000, 64)] } else { vec![(200, 65536), (5000, 16)] };
+            for (count, big) in plans {
+                let req = small_messages(r, d)[1].clone();
+                o.case(&format!("many requests count={} answer={}", count, big));
+                o.line("mclear");
+                o.line("new 272 4 0 7 8");
+                o.line("clear");
+                o.line(&format!("val octn {} 5a", big));
+                o.line(&format!("add_avp {} - 0", oc0));
+                o.line("msave");
+                o.line(&format!("servemany {} {}", count, hex(&req.encode(&mut None))));
+            }
         }
         // answers far beyond the size of anything read: 1 MiB + 4 and 3 MiB (the read limit is no write limit)
         let oc = d.by_type(T_OCT)[0].code;
@@ -3649,6 +3684,7 @@ pub fn generate(family: &str, seed: u64, tier: &str, extra: &[String], w: &mut d
         "c07" => {
             emit_dict(o.w, &d0);
             gen_c07(&mut o, &mut r, &d0, tier);
+            gen_c07_many(&mut o, &d0, tier);
         }
         "c08" => {
             emit_dict(o.w, &d0);
